@@ -279,3 +279,70 @@ def rf19d(run):
     if n < 4:
         raise F.AnalysisBroken('only %d register-required operand positions found in insn_descs (4 confirmed by hand)' % n)
     return n
+
+
+# ---------------------------------------------------------------------------------------------
+# RF81: only register and memory operands can be outputs
+# ---------------------------------------------------------------------------------------------
+
+def rf81(run):
+    from lib import regions as R
+    rule = 'RF81'
+    run.rule(rule, 'MIR_finish_func: the switch over the operand mode leaves can_be_out_p set only for register and memory operands; for every '
+                   'other mode (immediates, references, strings, labels, …) the region that handles it clears the flag unconditionally, so '
+                   'the `out_p && !can_be_out_p` test reports a non-register / non-memory output operand (MIR_out_op_error)')
+    tu = run.tu('mir')
+    f = tu.func('MIR_finish_func')
+    run.functions_analysed.add(('mir', f.name))
+    sws = [s_ for s_ in R.find_switches(f) if F.src(s_['c'][0]).replace(' ', '').endswith('.mode')]
+    sws = [s_ for s_ in sws if any(x['k'] == 'BinaryOperator' and x['op'] == '=' and F.src(F.strip(x['c'][0])) == 'can_be_out_p' for x in F.walk(s_))]
+    if len(sws) != 1:
+        raise F.AnalysisBroken('MIR_finish_func: the operand-mode switch that sets can_be_out_p was not identified')
+    sw = sws[0]
+    modes = tu.enum('MIR_op_mode_t')
+    byv = {}
+    for nm, v in modes:
+        byv.setdefault(v, nm)
+    regs = R.switch_regions(f, sw)
+    covered = set()
+    verdict = {}
+    for idx, r in enumerate(regs):
+        names = []
+        for (nm, lo, hi) in r['cases']:
+            if lo is None:
+                continue
+            for v in range(lo, (hi if hi is not None else lo) + 1):
+                names.append(byv.get(v, str(v)))
+        # follow fall-through
+        stmts = list(r['stmts'])
+        j = idx
+        while regs[j]['falls_into'] is not None:
+            j = regs[j]['falls_into']
+            stmts += regs[j]['stmts']
+        clears = any(s_['k'] == 'BinaryOperator' and s_['op'] == '=' and F.src(F.strip(s_['c'][0])) == 'can_be_out_p'
+                     and F.const_value(F.strip(s_['c'][1])) == 0 for s_ in stmts)
+        for nm in names:
+            verdict[nm] = clears
+            covered.add(nm)
+        if r['default']:
+            dflt = clears
+    for nm, v in modes:
+        if nm not in covered and nm != 'MIR_OP_BOUND':
+            verdict[nm] = dflt if any(r['default'] for r in regs) else False
+    allowed = {'MIR_OP_REG', 'MIR_OP_MEM', 'MIR_OP_VAR', 'MIR_OP_VAR_MEM'}
+    n = 0
+    for nm in sorted(verdict):
+        n += 1
+        ok = verdict[nm] or nm in allowed
+        run.ob(rule, (nm,), ok, {'operand mode': nm, 'flag cleared': verdict[nm], 'may be an output': nm in allowed})
+        if not ok:
+            run.violation(rule, f, 'output operand of mode %s' % nm, 'the region of the operand-mode switch that handles %s does not clear '
+                          'can_be_out_p: an instruction whose output operand is a %s (e.g. `mov <item>, r`, `add "abc", a, 1`) is accepted '
+                          'instead of raising MIR_out_op_error' % (nm, nm[7:].lower()), line=sw['l'])
+    # the flag is tested
+    tests = [x for x in f.walk() if x['k'] == 'IfStmt' and 'can_be_out_p' in F.src(x['c'][0]) and 'out_p' in F.src(x['c'][0]).replace('can_be_out_p', '')]
+    n += 1
+    run.ob(rule, ('test',), bool(tests))
+    if not tests:
+        run.violation(rule, f, 'flag not tested', 'can_be_out_p is never tested together with out_p', line=sw['l'])
+    return n
